@@ -13,6 +13,7 @@
  *   m args <sep-hex> [nomem]     mpt_array_message (nomem: the first allocation inside the call fails)
  *   m append <prefix-hex> [nomem:<k>]   mpt_message_append to an array holding the prefix (the k-th allocation inside
  *                                the call fails)
+ *   m dhash                      mpt_dispatch_hash(catch-all handler) on the message: verdict and command hash
  *   m qget <max> <off> <fill-hex> <pos> <take> [novec]   mpt_message_get on a queue (novec: no iovec for a second part);
  *                                the result becomes the message
  */
@@ -22,6 +23,8 @@
 #include "array.h"
 #include "queue.h"
 #include "message.h"
+#include "event.h"
+#include <inttypes.h>
 
 #define MAXF 64
 static struct iovec vec[MAXF + 1];
@@ -41,6 +44,14 @@ void *__wrap_malloc(size_t n)
 	return __real_malloc(n);
 }
 
+static int dhash_called; static uintptr_t dhash_id;
+static int dhash_handler(void *arg, MPT_STRUCT(event) *ev)
+{
+	(void) arg;
+	dhash_called = 1;
+	dhash_id = ev ? ev->id : 0;
+	return 0;
+}
 static void drop_frags(void)
 {
 	for (size_t i = 0; i < nvec; i++) free(blocks[i]);
@@ -283,6 +294,23 @@ int main(void)
 			put_array(&arr);
 			tail(code);
 			mpt_array_clone(&arr, 0);
+		}
+		else if (!strcmp(op, "dhash") && drv_nw == 2) {
+			/* mpt_dispatch_hash with a catch-all handler: the command word (first argument after the 2-byte type
+			 * header) is hashed — straight from the fragment when it is contiguous, through a copy otherwise */
+			MPT_STRUCT(dispatch) disp = MPT_DISPATCH_INIT;
+			MPT_STRUCT(event) ev = MPT_EVENT_INIT;
+			disp._err.cmd = dhash_handler;
+			ev.msg = &msg;
+			dhash_called = 0;
+			before();
+			int r = mpt_dispatch_hash(&disp, &ev);
+			char code[32];
+			snprintf(code, sizeof(code), "%d", r);
+			if (dhash_called) printf("R ret=called hash=%016" PRIx64, (uint64_t) dhash_id);
+			else printf("R ret=refused hash=-");
+			tail(code);
+			mpt_dispatch_fini(&disp);
 		}
 		else if (!strcmp(op, "append") && (drv_nw == 3 || (drv_nw == 4 && !strncmp(drv_w[3], "nomem:", 6)))) {
 			size_t failat = 0;
